@@ -39,6 +39,28 @@ class BoundExceeded(SxAbort):
     """An unwinding / size bound of the harness was hit."""
 
 
+# proven obligation queries kept for the second-solver cross-check: the few with the longest
+# path condition per harness instance, as SMT-LIB2 text (pysx.explore runs cvc5 on them)
+XCHECK = []
+XCHECK_KEEP = 2
+
+
+def _xcheck_offer(ctx, negated):
+    size = len(ctx.pc)
+    if len(XCHECK) >= XCHECK_KEEP and size <= XCHECK[0][0]:
+        return
+    try:
+        s2 = z3.Solver()
+        s2.add(*ctx.pc)
+        s2.add(negated)
+        text_ = s2.to_smt2()
+    except Exception:       # export problems never affect the verdict of the primary solver
+        return
+    XCHECK.append((size, text_))
+    XCHECK.sort(key=lambda t: t[0])
+    del XCHECK[:-XCHECK_KEEP]
+
+
 class Stats:
     __slots__ = ('queries', 'solver_s', 'sat', 'unsat', 'unknown', 'decisions',
                  'interval_decided', 'model_decided', 'max_query_s')
@@ -374,6 +396,8 @@ class Ctx:
         r = self._check(z3.Not(cond))
         m = self._last_model
         self.model = keep
+        if r == 'unsat':
+            _xcheck_offer(self, z3.Not(cond))
         return r, m
 
 
